@@ -4,6 +4,7 @@ package main
 
 import (
 	"fmt"
+	"go/types"
 	"strings"
 
 	"golang.org/x/tools/go/ssa"
@@ -19,6 +20,46 @@ const (
 	msgFn  = `call:iface:\(mainchain/blockchain\.Message\)\.`
 	bigNew = `&alloc:new:math/big\.Int`
 )
+
+// c09Extra: rules added for round-3 seeded changes.
+func c09Extra(c *Ctx) {
+	// the gas handed to a created frame is the gas charged to the creating frame: charging less creates gas (gas used then
+	// exceeds what was bought, the pool grows)
+	for _, name := range []string{"opCreate", "opCreate2"} {
+		fn := c.Fn("kvm", "", name)
+		if fn == nil {
+			continue
+		}
+		var charged, forwarded ssa.Value
+		for _, in := range findInstrs(fn, CallTo(`^\(\*kvm\.Contract\)\.UseGas$`, "")) {
+			charged = callCommon(in).Args[1]
+		}
+		for _, in := range findInstrs(fn, CallTo(`^\(\*kvm\.KVM\)\.(Create|Create2)$`, "")) {
+			args := callCommon(in).Args
+			for _, a := range args {
+				if bt, ok := a.Type().Underlying().(*types.Basic); ok && bt.Kind() == types.Uint64 {
+					forwarded = a
+				}
+			}
+		}
+		c.Check("F", fnName(fn)+"/the gas forwarded to the new frame is the gas charged to this one", charged != nil && forwarded != nil && (charged == forwarded || pathOf(charged) == pathOf(forwarded)), fn.Pos(), 2,
+			fmt.Sprintf("charged %s, forwarded %s", pathOfNil(charged), pathOfNil(forwarded)))
+		c.Precedes(fn, "charge the gas", CallTo(`^\(\*kvm\.Contract\)\.UseGas$`, ""), "create", CallTo(`^\(\*kvm\.KVM\)\.(Create|Create2)$`, ""))
+	}
+	// the proposer drops a failed transaction without a trace: whatever the error, the state goes back to the snapshot taken
+	// before it (buyGas has debited the sender before the intrinsic-gas and transfer checks can fail)
+	if fn := c.Fn("mainchain/blockchain", "proposalBlock", "commitTransaction"); fn != nil {
+		c.OnFailure(fn, G("ApplyTransaction error == nil", IsNil(`^call:mainchain/blockchain\.ApplyTransaction\(.*#2$`)), "RevertToSnapshot(snap)", CallTo(`\)\.RevertToSnapshot$`, ""))
+		c.Precedes(fn, "take the snapshot", CallTo(`\)\.Snapshot$`, ""), "apply the transaction", CallTo(`^mainchain/blockchain\.ApplyTransaction$`, ""))
+	}
+}
+
+func pathOfNil(v ssa.Value) string {
+	if v == nil {
+		return "<none>"
+	}
+	return pathOf(v)
+}
 
 func runC09(c *Ctx) {
 	c.Decided = []string{
@@ -36,6 +77,10 @@ func runC09(c *Ctx) {
 	// what Finalise and Commit write is the journal's dirty set: a revert takes an address out of it only when every one
 	// of its entries is undone (group owned by C08)
 	c08Mechanics(c)
+	c09Extra(c)
+	// balances change through fresh values only (an in-place add also changes every holder of the same big.Int: the
+	// journal's previous value, a copied state) — group owned by C08
+	c08Copy(c)
 
 	from := msgFn + `From\(st\.msg\)`
 	gasM := msgFn + `Gas\(st\.msg\)`
